@@ -9,7 +9,7 @@ def main(path):
     r = json.load(open(path))
     pid = r.get("property", "C00")
     ctx = vlib.Ctx(pid, "quick")
-    if r.get("kind") in ("concurrency", "protocol-trace"):
+    if r.get("kind") in ("concurrency", "protocol-trace", "txprog-trace"):
         from checks import conc
         return conc.replay(r)
     if r.get("kind") == "proof" or "ops" not in r:
